@@ -101,3 +101,18 @@ Theorem C08_code_titan_from_line_tie : forall ip6 line,
 Proof. exact EquivUrl.titan_from_line_tie. Qed.
 Print Assumptions C08_code_titan_from_line_tie.
 
+(* ---- tie to the code (server/protocol.py: the request-line limit, UTF-8 and URL checks in data_received / _handle_gemini_request / _handle_titan_url): theorems of coq/Equiv/EquivServer.v (statements there), re-checked against the definitions
+   regenerated from /repo's working tree; see DESIGN.md 11.8 ---- *)
+From NV Require Equiv.EquivServer.
+Theorem C08_code_data_received_tie : ltac:(let t := type of @EquivServer.data_received_tie in exact t).
+Proof. exact (@EquivServer.data_received_tie). Qed.
+Print Assumptions C08_code_data_received_tie.
+
+Theorem C08_code_handle_gemini_request_tie : ltac:(let t := type of @EquivServer.handle_gemini_request_tie in exact t).
+Proof. exact (@EquivServer.handle_gemini_request_tie). Qed.
+Print Assumptions C08_code_handle_gemini_request_tie.
+
+Theorem C08_code_handle_titan_url_tie : ltac:(let t := type of @EquivServer.handle_titan_url_tie in exact t).
+Proof. exact (@EquivServer.handle_titan_url_tie). Qed.
+Print Assumptions C08_code_handle_titan_url_tie.
+
